@@ -109,7 +109,16 @@ def generate(rng, n, tier, stats):
                 op = ['set_dims', nm]
             elif k == 'rename_axes':
                 if not dims: continue
-                m = rng.sample(dims, rng.randint(1, len(dims))); op = ['rename_axes', [[d, next(fresh)] for d in m]]
+                m = rng.sample(dims, rng.randint(1, len(dims)))
+                u = rng.random()
+                if u < 0.5 or len(m) < 2: op = ['rename_axes', [[d, next(fresh)] for d in m]]
+                elif u < 0.8:
+                    # the names are PERMUTED among the renamed dimensions (a swap, a cycle): the renaming is simultaneous
+                    tgt = m[1:] + m[:1]; op = ['rename_axes', [[a_, b_] for a_, b_ in zip(m, tgt)]]
+                else:
+                    # a chain: every name but the last becomes the next dimension's old name
+                    tgt = m[1:] + [next(fresh)]; op = ['rename_axes', [[a_, b_] for a_, b_ in zip(m, tgt)]]
+                stats['rename_axes_form']['fresh' if u < 0.5 or len(m) < 2 else 'permutation' if u < 0.8 else 'chain'] += 1
             elif k == 'set_label':
                 if not dims: continue
                 i = rng.randrange(len(dims)); ax = ds.axes[i]
@@ -139,6 +148,17 @@ def generate(rng, n, tier, stats):
             holder = [ds]
             status = apply_op(holder, op); ds = holder[0]
             hist.append({'op': op, 'status': status, 'obs': observe(ds), 'intended_reject': k == 'reject'})
+        have = list(ds.keys())
+        if len(have) >= 2 and rng.random() < 0.2:
+            # rename_keys with several keys at once, the new names overlapping the old ones (swap / cycle / chain): not in the
+            # model (one key per step there), judged by the oracle; always the LAST step of a history
+            m = rng.sample(have, rng.randint(2, len(have)))
+            tgt = m[1:] + (m[:1] if rng.random() < 0.6 else ['z9'])
+            op = ['rename_keys_multi', [[a_, b_] for a_, b_ in zip(m, tgt)]]
+            before = observe(ds)
+            holder = [ds]; status = apply_op(holder, op); ds = holder[0]
+            hist.append({'op': op, 'status': status, 'obs': observe(ds), 'intended_reject': False, 'unmodelled': True, 'before': before})
+            stats['history_op']['rename_keys_multi'] += 1
         stats['history_length'][len(hist)] += 1
         cases.append({'hist': hist})
     return cases
@@ -160,6 +180,7 @@ def apply_op(holder, op):
         elif n == 'set_axis': ds.set_axis(ops.labs_np(op[2], op[3]), axis=op[1], name=op[4])
         elif n == 'replace_axis': ds.axes[op[1]] = mk_axis(op[2]['name'], op[2]['labels'], op[2]['kind'])
         elif n == 'rename_key': ds.rename_keys({op[1]: op[2]})
+        elif n == 'rename_keys_multi': ds.rename_keys(dict((a, b) for a, b in op[1]))
         return None
     except Exception as e:
         nm = type(e).__name__
@@ -200,6 +221,7 @@ def cq_dsop(op):
 def coq_case(c, res):
     items = []
     for st, r in zip(c['hist'], res[1]):
+        if st.get('unmodelled'): break       # (the last step, judged by the oracle)
         e = 'None' if r['status'] is None else '(Some %s)' % r['status']
         items.append('(%s, %s, %s)' % (cq_dsop(st['op']), e, cq_obs(r['obs'])))
     return cq_list(items)
@@ -245,6 +267,14 @@ def oracle(c, res):
         if r['status'] is None and st['op'][0] == 'rename_axis':
             ref = st['op'][1]; i = ref if isinstance(ref, int) else prev['dims'].index(ref)
             if o['dims'][i] != st['op'][2]: return 'after step %d: axis %r renamed to %r, but the dataset reports dims %r' % (k, ref, st['op'][2], o['dims'])
+        if st['op'][0] == 'rename_keys_multi':
+            if r['status'] is not None: return 'rename_keys(%r) raised %s' % (dict(map(tuple, st['op'][1])), r['status'])
+            m = dict(map(tuple, st['op'][1])); pv = {v['key']: v['arr'] for v in prev['vars']}; nv = {v['key']: v['arr'] for v in o['vars']}
+            want = {m.get(k_, k_): a_ for k_, a_ in pv.items()}
+            if sorted(nv) != sorted(want): return 'rename_keys(%r): keys %r, expected %r' % (m, sorted(nv), sorted(want))
+            for k_ in want:
+                if json.dumps(nv[k_], sort_keys=True, default=str) != json.dumps(want[k_], sort_keys=True, default=str):
+                    return 'rename_keys(%r): variable %r does not hold the data of the variable renamed to it' % (m, k_)
         if st.get('intended_reject'):
             if r['status'] != 'ValueError': return 'step %d: assignment with disagreeing labels gave %r instead of ValueError' % (k, r['status'])
             if json.dumps(o, sort_keys=True, default=str) != json.dumps(prev, sort_keys=True, default=str):
